@@ -10,7 +10,11 @@ form compared with the Lean model (`lean/RichModel/Model/Live.lean`).  Operation
                           (one sys.stdout / sys.stderr .write of complete lines through the FileProxy), "py1" + "py2"
                           (a write ending inside a line, then the rest of that line)
     ("U", lines, refresh) Live.update(renderable that yields `lines`) / Status.update(status="\\n".join(lines))
-    ("A", desc, visible)  Progress.add_task     ("V", id, n) Progress.advance
+    ("W", err, lines, tail)  sys.stdout (err=False) / sys.stderr (err=True) .write: complete `lines`, then `tail` without new line
+    ("E", id, kwargs, refresh) Progress.update(id, **kwargs, refresh=…)   ("ER", id, kwargs) Progress.reset(id, **kwargs)
+    ("T0", id, n) / ("T1", id)  Progress.track(range(n), task_id=id): up to the first item / on to the next item
+    ("Z", width)          the console width changes
+    ("A", desc, visible[, total])  Progress.add_task     ("V", id, n) Progress.advance
     ("H", id, visible, refresh) Progress.update(id, visible=…, refresh=…)      ("D", id) Progress.remove_task
 """
 import io
@@ -95,7 +99,7 @@ class LinesR:
 
 
 class CountCol(ProgressColumn):
-    """The single progress column `"{description} {completed}"`, fault-injectable."""
+    """The single progress column `"{description} {completed}/{total}"`, fault-injectable."""
 
     def __init__(self, faults):
         super().__init__()
@@ -103,26 +107,38 @@ class CountCol(ProgressColumn):
 
     def render(self, task):
         self.faults.hit()
-        return Text(f"{task.description} {task.completed}")
+        return Text(f"{task.description} {task.completed}/{task.total}")
 
 
-def make_console(width, height, color):
+class Clock:
+    """`Console.get_time`: a clock that advances by 50 ms every time it is read (the spinner of a Status moves)."""
+
+    def __init__(self, step=0.05):
+        self.t = 0.0
+        self.step = step
+
+    def __call__(self):
+        self.t += self.step
+        return self.t
+
+
+def make_console(width, height, color, terminal=True, dumb=False, clock=None):
     return Console(
         file=io.StringIO(),
-        force_terminal=True,
+        force_terminal=terminal,
         width=width,
         height=height,
-        color_system=color,
+        color_system=color if terminal else None,
         log_time=False,
         log_path=False,
-        get_time=lambda: 0.0,
-        _environ={},
+        get_time=clock or (lambda: 0.0),
+        _environ={"TERM": "dumb"} if dumb else {},
     )
 
 
-def plain_lines(width, height, color, how, lines):
+def plain_lines(width, height, color, how, lines, terminal=True, dumb=False):
     """The lines a console *without* a live display writes for this user output (the model's input)."""
-    c = make_console(width, height, color)
+    c = make_console(width, height, color, terminal, dumb)
     _emit_user(c, how, lines, None)
     toks = term.plain_ops(term.tokenize(c.file.getvalue()))
     out, cur = [], ""
@@ -186,7 +202,8 @@ def enc_tokens(tokens):
 
 
 class Cfg:
-    def __init__(self, kind, transient, width, height, overflow="ellipsis", redirect_stdout=True, redirect_stderr=True, color=None, init=()):
+    def __init__(self, kind, transient, width, height, overflow="ellipsis", redirect_stdout=True, redirect_stderr=True, color=None, init=(),
+                 terminal=True, dumb=False, disable=False):
         self.kind = kind
         self.transient = True if kind == "status" else transient
         self.width = width
@@ -196,8 +213,11 @@ class Cfg:
         self.redirect_stderr = True if kind == "status" else redirect_stderr
         self.color = color
         self.init = list(init)  # initial renderable lines (Live) / initial status lines (Status)
+        self.terminal = terminal or dumb      # console.is_terminal
+        self.dumb = dumb                      # TERM=dumb
+        self.disable = disable and kind == "progress"
 
-    def enc(self, bare_bypass, start_guard, reset_shape):
+    def enc(self, bare_bypass, start_guard, reset_shape, blank_fix, flush_fix, spins=""):
         return ",".join(
             str(x)
             for x in [
@@ -211,6 +231,12 @@ class Cfg:
                 int(start_guard),
                 OVERFLOWS[self.overflow],
                 int(reset_shape),
+                int(blank_fix),
+                int(flush_fix),
+                int(self.terminal),
+                int(self.dumb),
+                int(self.disable),
+                enc_str(spins),
             ]
         )
 
@@ -218,7 +244,8 @@ class Cfg:
         return enc_str_list(self.init)
 
     def __repr__(self):
-        return f"Cfg({self.kind}, transient={self.transient}, {self.width}x{self.height}, overflow={self.overflow}, redirect=({self.redirect_stdout},{self.redirect_stderr}), color={self.color}, init={self.init})"
+        extra = ("" if self.terminal else ", file") + (", dumb" if self.dumb else "") + (", disable" if self.disable else "")
+        return f"Cfg({self.kind}, transient={self.transient}, {self.width}x{self.height}, overflow={self.overflow}, redirect=({self.redirect_stdout},{self.redirect_stderr}), color={self.color}, init={self.init}{extra})"
 
 
 def enc_op(op, cfg, width_lines=None):
@@ -233,13 +260,30 @@ def enc_op(op, cfg, width_lines=None):
     if k == "U":
         return f"U{int(op[2])};" + enc_str_list(op[1])
     if k == "A":
-        return f"A{int(op[2])};" + enc_str(op[1])
+        return f"A{int(op[2])};" + enc_str(op[1]) + f";{op[3] if len(op) > 3 else 100}"
+    if k in ("E", "ER"):
+        # ("E", id, {total, advance, completed, description, visible}, refresh) = Progress.update ; ("ER", id, {...}) = Progress.reset
+        kw = op[2]
+        o = lambda x: "-" if x is None else str(x)
+        comp = kw.get("completed", 0 if k == "ER" else None)
+        d = kw.get("description")
+        v = kw.get("visible")
+        return "E%d;%s;%s;%s;%s;%s;%d" % (op[1], o(kw.get("total")), o(kw.get("advance")), o(comp), "-" if d is None else "=" + enc_str(d),
+                                          "-" if v is None else str(int(v)), 1 if k == "ER" else int(op[3]))
+    if k == "T0":
+        return "E%d;%d;-;-;-;-;0" % (op[1], op[2])   # track(range(n), task_id=id) up to its first item: update(id, total=n)
+    if k == "T1":
+        return "E%d;-;1;-;-;-;1" % op[1]      # one step of track(): advance(task, 1); refresh()
+    if k == "Z":
+        return f"Z{op[1]}"
     if k == "V":
         return f"V{op[1]};{op[2]}"
     if k == "H":
         return f"H{op[1]};{int(op[2])};{int(op[3])}"
     if k == "D":
         return f"D{op[1]}"
+    if k == "W":
+        return f"W{int(op[1])};" + enc_str_list(op[2]) + ";" + enc_str(op[3])
     raise ValueError(op)
 
 
@@ -249,7 +293,24 @@ class Session:
     def __init__(self, cfg, faults=None, styled=False):
         self.cfg = cfg
         self.faults = faults or Faults()
-        self.console = make_console(cfg.width, cfg.height, cfg.color)
+        self.clock = Clock() if cfg.kind == "status" else None
+        self.console = make_console(cfg.width, cfg.height, cfg.color, cfg.terminal, cfg.dumb, self.clock)
+        self.spins = []       # what the Status spinner showed at the 0th, 1st, … render of the display
+        self.tracks = {}      # task id -> generator returned by Progress.track
+        self._orig_spinner = None
+        if cfg.kind == "status":
+            from rich.spinner import Spinner
+
+            orig = Spinner.__rich_console__
+            spins = self.spins
+
+            def recording(sp, console, options):
+                for x in orig(sp, console, options):
+                    spins.append(x.plain[:1])
+                    yield x
+
+            self._orig_spinner = (Spinner, orig)
+            Spinner.__rich_console__ = recording
         self.style = Style(color="red", bold=True) if styled else None
         self.fake_out = io.StringIO()
         self.fake_err = io.StringIO()
@@ -275,6 +336,7 @@ class Session:
                     redirect_stdout=cfg.redirect_stdout,
                     redirect_stderr=cfg.redirect_stderr,
                     get_time=lambda: 0.0,
+                    disable=cfg.disable,
                 )
             else:
                 self.obj = Status("\n".join(cfg.init), console=self.console)
@@ -306,6 +368,9 @@ class Session:
                     return -1
             return d
 
+        def pending(f):
+            return "".join(getattr(f, "_FileProxy__buffer", [])) if isinstance(f, FileProxy) else ""
+
         shape = lv._live_render._shape
         return ",".join(
             [
@@ -318,6 +383,8 @@ class Session:
                 "-" if shape is None else f"{shape[0]}x{shape[1]}",
                 str(int(self.obj._task_index)) if self.cfg.kind == "progress" else "0",
                 str(OVERFLOWS["visible" if self.cfg.kind == "progress" else lv.vertical_overflow]),
+                "o" + enc_str(pending(sys.stdout)),
+                "e" + enc_str(pending(sys.stderr)),
             ]
         )
 
@@ -354,13 +421,40 @@ class Session:
             else:
                 o.update(status="\n".join(op[1]))
         elif k == "A":
-            o.add_task(op[1], visible=op[2])
+            o.add_task(op[1], visible=op[2], total=op[3] if len(op) > 3 else 100)
+        elif k == "E":
+            o.update(op[1], refresh=op[3], **op[2])
+        elif k == "ER":
+            o.reset(op[1], **op[2])
+        elif k == "T0":
+            # Progress.track(range(n), task_id=id): the first next() sets the total (update), yields item 0
+            g = o.track(range(op[2]), task_id=op[1])
+            self.tracks[op[1]] = g
+            next(g)
+        elif k == "T1":
+            # the next item: advance(task, 1); refresh()
+            g = self.tracks.get(op[1])
+            if g is None or g.gi_frame is None:
+                # the iterator is gone (exhausted, or killed by an exception): the same two calls, directly
+                o.advance(op[1], 1)
+                o.refresh()
+            else:
+                try:
+                    next(g)
+                except StopIteration:
+                    pass
+        elif k == "Z":
+            self.console._width = op[1]
         elif k == "V":
             o.advance(op[1], op[2])
         elif k == "H":
             o.update(op[1], visible=op[2], refresh=op[3])
         elif k == "D":
             o.remove_task(op[1])
+        elif k == "W":
+            # sys.stdout / sys.stderr .write of `lines` (each completed by a new line) followed by `tail` (left pending)
+            stream = sys.stderr if op[1] else sys.stdout
+            stream.write("".join(l + "\n" for l in op[2]) + op[3])
         else:
             raise ValueError(op)
 
@@ -377,10 +471,14 @@ class Session:
 
     def close(self):
         sys.stdout, sys.stderr = self.saved
+        if self._orig_spinner is not None:
+            cls, orig = self._orig_spinner
+            cls.__rich_console__ = orig
+            self._orig_spinner = None
 
 
 def run_with(cfg, ops, faults, raise_at):
-    """`with display: body` on the real objects.  -> (characters written, raised?, ctl, restored?, exception type)"""
+    """`with display: body` on the real objects.  -> (characters written, raised?, ctl, restored?, exception type, spinner frames)"""
     s = Session(cfg, faults)
     try:
         exc = None
@@ -394,6 +492,6 @@ def run_with(cfg, ops, faults, raise_at):
                     raise BodyError(raise_at)
         except (Boom, BodyError, KeyError) as e:
             exc = e
-        return s.take(), exc is not None, s.ctl(), s.restored(), type(exc).__name__ if exc else None
+        return s.take(), exc is not None, s.ctl(), s.restored(), type(exc).__name__ if exc else None, "".join(s.spins)
     finally:
         s.close()
